@@ -182,31 +182,168 @@ def exc_name(e):
 
 
 def exec_codec(lines):
-    """format_multiline_lines -> parse_multiline_as_lines on one list of lines"""
+    """format_multiline_lines -> parse_multiline_as_lines on one list of lines, then the same calls
+    again after the caller has changed the list the first call returned (no state between calls)"""
     from debian import copyright as C
-    o = {"enc": None, "out": None, "exc": "", "msg": ""}
+    o = {"enc": None, "out": None, "exc": "", "msg": "", "out2": None, "out3": None, "kept": True}
+    arg = list(lines)
     try:
-        o["enc"] = C.format_multiline_lines(list(lines))
-        o["out"] = C.parse_multiline_as_lines(o["enc"])
-        if not isinstance(o["out"], list) or not all(isinstance(x, str) for x in o["out"]):
-            o["exc"], o["msg"] = "BadResult", repr(o["out"])[:200]
+        o["enc"] = C.format_multiline_lines(arg)
+        res = C.parse_multiline_as_lines(o["enc"])
+        if not isinstance(res, list) or not all(isinstance(x, str) for x in res):
+            o["exc"], o["msg"] = "BadResult", repr(res)[:200]
+            return o
+        o["out"] = list(res)
+        # the caller owns the returned list: scribble on it, then call again
+        res.append("scribbled by the caller")
+        res[0] = "scribbled"
+        enc2 = C.format_multiline_lines(arg)
+        o["out2"] = list(C.parse_multiline_as_lines(enc2))
+        o["out3"] = list(C.parse_multiline_as_lines(o["enc"]))
+        o["kept"] = arg == list(lines) and enc2 == o["enc"]
     except Exception as e:           # an exception of the code under test is an observation
         o["exc"], o["msg"] = exc_name(e), str(e)[:200]
     return o
 
 
-def exec_doc(hdr, ops, start="api", form="lines", dumpform="str"):
-    """build -> dump -> strict re-parse -> dump.
+# inputs shared between documents (the same License object / the same pattern list object is handed
+# to the code under test again and again; the code must neither change them nor remember them)
+_SHARED = {"repo": None, "lic": {}, "pats": {}}
+
+
+def _shared_reset(C):
+    if _SHARED["repo"] is not C or len(_SHARED["lic"]) > 4000:
+        _SHARED["repo"], _SHARED["lic"], _SHARED["pats"] = C, {}, {}
+
+
+def _mk_lic(C, syn, text):
+    key = (syn, text)
+    if key not in _SHARED["lic"]:
+        _SHARED["lic"][key] = C.License(syn, text)
+    return _SHARED["lic"][key]
+
+
+def _mk_pats(pats):
+    key = tuple(pats)
+    if key not in _SHARED["pats"]:
+        _SHARED["pats"][key] = list(pats)
+    return _SHARED["pats"][key]
+
+
+def _mk_para(C, op):
+    lic = _mk_lic(C, op["syn"], op["text"])
+    if op["kind"] == "Files":
+        pats = _mk_pats(op["pats"])
+        p = C.FilesParagraph.create(pats, op["copy"], lic)
+        if pats != list(op["pats"]):
+            raise AssertionError("FilesParagraph.create changed the list of patterns it was given")
+        return p
+    return C.LicenseParagraph.create(lic)
+
+
+def observe_doc(C, c):
+    """projection of a Copyright object: (header dict, list of paragraph dicts)"""
+    h = c.header
+    hl = h.license
+    hdr = {"format": h.format, "name": h.upstream_name, "uc": list(h.upstream_contact),
+           "lic": None if hl is None else [hl.synopsis, hl.text]}
+    ps = []
+    for p in list(c.all_paragraphs())[1:]:
+        if isinstance(p, C.FilesParagraph):
+            lic = p.license
+            ps.append({"kind": "Files", "pats": list(p.files), "copy": p.copyright,
+                       "syn": lic.synopsis, "text": lic.text})
+        elif isinstance(p, C.LicenseParagraph):
+            lic = p.license
+            ps.append({"kind": "License", "pats": [], "copy": None, "syn": lic.synopsis, "text": lic.text})
+        else:
+            ps.append({"kind": type(p).__name__, "pats": [], "copy": None, "syn": None, "text": None})
+    nf = len(list(c.all_files_paragraphs()))
+    nl = len(list(c.all_license_paragraphs()))
+    if nf != sum(1 for p in ps if p["kind"] == "Files") or nl != sum(1 for p in ps if p["kind"] == "License"):
+        ps.append({"kind": "iterators-disagree", "pats": [], "copy": None, "syn": None, "text": None})
+    return hdr, ps
+
+
+SCRIBBLE = [{"kind": "scribble"}]
+
+
+def apply_edits(C, c, edits):
+    """change a (re-parsed) document through the public setters / add_* calls; for "add" the observed
+    position of the new paragraph is stored in the edit ("at")"""
+    for e in edits:
+        body = list(c.all_paragraphs())[1:]
+        if e["kind"] == "scribble":
+            for p in body:
+                if isinstance(p, C.FilesParagraph):
+                    p.files = ["scribbled/*", "*"]
+                    p.copyright = "scribbled by the caller\n 2099 nobody"
+                p.license = C.License("SCRIBBLED", "scribbled\n\n .\n  text")
+            c.header.upstream_name = "scribbled"
+            c.header.upstream_contact = ["scribbled <s@example.org>", "two"]
+            c.add_files_paragraph(C.FilesParagraph.create(["scribbled"], "scribbled", C.License("SCRIBBLED")))
+            c.add_license_paragraph(C.LicenseParagraph.create(C.License("SCRIBBLED", "x")))
+        elif e["kind"] == "files":
+            body[e["i"]].files = _mk_pats(e["pats"])
+        elif e["kind"] == "copy":
+            body[e["i"]].copyright = e["copy"]
+        elif e["kind"] == "lic":
+            body[e["i"]].license = _mk_lic(C, e["syn"], e["text"])
+        elif e["kind"] == "add":
+            p = _mk_para(C, e["para"])
+            if e["para"]["kind"] == "Files":
+                c.add_files_paragraph(p)
+            else:
+                c.add_license_paragraph(p)
+            e["at"] = [i for i, q in enumerate(list(c.all_paragraphs())[1:]) if q is p][0]
+        else:
+            raise core.MachineryError("unknown edit %r" % (e,))
+
+
+def edited_doc(doc, edits):
+    """the concrete document after `edits` (plain list surgery on the harness' own input data, with
+    the OBSERVED position of an added paragraph)"""
+    doc = [dict(p) for p in doc]
+    for e in edits:
+        if e["kind"] == "files":
+            doc[e["i"]]["pats"] = list(e["pats"])
+        elif e["kind"] == "copy":
+            doc[e["i"]]["copy"] = e["copy"]
+        elif e["kind"] == "lic":
+            doc[e["i"]]["syn"], doc[e["i"]]["text"] = e["syn"], e["text"]
+        elif e["kind"] == "add":
+            doc.insert(e["at"], dict(e["para"]))
+    return doc
+
+
+def exec_doc(hdr, ops, start="api", form="lines", dumpform="str", edits=None):
+    """build -> dump -> strict re-parse -> dump; then change the re-parsed document (`edits`: a function
+    from the observed paragraph order to a list of edits; None or a None result: scribble over
+    everything), dump and strictly re-parse it again (only for real edits), and parse the FIRST dump
+    once more.
     hdr = {"name": str|None, "uc": [str], "lic": [syn, text]|None}
     ops = [{"kind": "Files"|"License", "pats": [...], "copy": str, "syn": str, "text": str}]"""
     from debian import copyright as C
+    _shared_reset(C)
     o = {"stage": "", "exc": "", "msg": "", "order": None, "dump": None, "warn": [], "format0": None,
-         "hdr": None, "paras": None, "dump2": None}
+         "hdr": None, "paras": None, "dump2": None,
+         "edits": None, "hdr2": None, "paras2": None, "dump3": None, "dump4": None, "hdr3": None, "paras3": None,
+         "_live": None}
     log = logging.getLogger("debian.copyright")
     handler = _Catch()
     old_prop = log.propagate
     log.addHandler(handler)
     log.propagate = False
+
+    def parse(text):
+        return C.Copyright(text.splitlines(True) if form == "lines" else io.StringIO(text), strict=True)
+
+    def dump(c):
+        if dumpform == "str":
+            return c.dump()
+        f = io.StringIO()
+        c.dump(f=f)
+        return f.getvalue()
     try:
         try:
             o["stage"] = "build"
@@ -217,14 +354,8 @@ def exec_doc(hdr, ops, start="api", form="lines", dumpform="str"):
             if hdr.get("uc"):
                 c.header.upstream_contact = list(hdr["uc"])
             if hdr.get("lic") is not None:
-                c.header.license = C.License(hdr["lic"][0], hdr["lic"][1])
-            objs = []
-            for op in ops:
-                lic = C.License(op["syn"], op["text"])
-                if op["kind"] == "Files":
-                    objs.append(C.FilesParagraph.create(list(op["pats"]), op["copy"], lic))
-                else:
-                    objs.append(C.LicenseParagraph.create(lic))
+                c.header.license = _mk_lic(C, hdr["lic"][0], hdr["lic"][1])
+            objs = [_mk_para(C, op) for op in ops]
             if start == "api":
                 for p in objs:
                     if isinstance(p, C.FilesParagraph):
@@ -238,43 +369,42 @@ def exec_doc(hdr, ops, start="api", form="lines", dumpform="str"):
                 c = C.Copyright(text.splitlines(True), strict=True)
                 o["order"] = list(range(len(objs)))
             o["stage"] = "dump"
-            if dumpform == "str":
-                d1 = c.dump()
-            else:
-                f = io.StringIO()
-                c.dump(f=f)
-                d1 = f.getvalue()
+            d1 = dump(c)
             o["dump"] = d1
             if not isinstance(d1, str):
                 raise TypeError("dump() returned %r" % type(d1))
             o["stage"] = "load"
             del handler.msgs[:]
-            c2 = C.Copyright(d1.splitlines(True) if form == "lines" else io.StringIO(d1), strict=True)
+            c2 = parse(d1)
             o["stage"] = "getters"
-            h = c2.header
-            hl = h.license
-            o["hdr"] = {"format": h.format, "name": h.upstream_name, "uc": list(h.upstream_contact),
-                        "lic": None if hl is None else [hl.synopsis, hl.text]}
-            ps = []
-            for p in list(c2.all_paragraphs())[1:]:
-                if isinstance(p, C.FilesParagraph):
-                    lic = p.license
-                    ps.append({"kind": "Files", "pats": list(p.files), "copy": p.copyright,
-                               "syn": lic.synopsis, "text": lic.text})
-                elif isinstance(p, C.LicenseParagraph):
-                    lic = p.license
-                    ps.append({"kind": "License", "pats": [], "copy": None, "syn": lic.synopsis, "text": lic.text})
-                else:
-                    ps.append({"kind": type(p).__name__, "pats": [], "copy": None, "syn": None, "text": None})
-            nf = len(list(c2.all_files_paragraphs()))
-            nl = len(list(c2.all_license_paragraphs()))
-            if nf != sum(1 for p in ps if p["kind"] == "Files") or nl != sum(1 for p in ps if p["kind"] == "License"):
-                ps.append({"kind": "iterators-disagree", "pats": [], "copy": None, "syn": None, "text": None})
-            o["paras"] = ps
+            o["hdr"], o["paras"] = observe_doc(C, c2)
             o["warn"] = list(handler.msgs)
             o["stage"] = "dump2"
             o["dump2"] = c2.dump()
+            # ---- second phase: nothing of the first round trip may leak into later calls
+            o["stage"] = "edit"
+            chosen = edits(o["order"]) if edits is not None else None
+            ed = [dict(e) for e in (SCRIBBLE if chosen is None else chosen)]
+            apply_edits(C, c2, ed)
+            o["edits"] = ed
+            if chosen is not None:
+                o["stage"] = "dump3"
+                o["dump3"] = dump(c2)
+                o["stage"] = "load2"
+                c4 = parse(o["dump3"])
+                o["stage"] = "getters2"
+                o["hdr2"], o["paras2"] = observe_doc(C, c4)
+                o["stage"] = "dump4"
+                o["dump4"] = c4.dump()
+            o["stage"] = "load3"
+            c3 = parse(d1)
+            o["stage"] = "getters3"
+            o["hdr3"], o["paras3"] = observe_doc(C, c3)
+            o["warn"] += list(handler.msgs[len(o["warn"]):])
+            o["_live"] = (C, c3)
             o["stage"] = "done"
+        except core.MachineryError:
+            raise
         except Exception as e:       # an exception of the code under test is an observation
             o["exc"], o["msg"] = exc_name(e), str(e)[:300]
             o["warn"] = list(handler.msgs)
@@ -284,41 +414,94 @@ def exec_doc(hdr, ops, start="api", form="lines", dumpform="str"):
     return o
 
 
-def judge_doc(o, hdr, expected):
-    """verdict observables of one execution against the expected document (list of paragraphs in
-    the expected order, same form as ops); returns None or a message"""
-    if o["exc"]:
-        return "%s raised %s: %s" % ({"build": "building the document", "dump": "dump()",
-                                      "load": "Copyright(dump().splitlines(True), strict=True)",
-                                      "getters": "reading the re-parsed paragraphs",
-                                      "dump2": "the second dump()"}.get(o["stage"], o["stage"]), o["exc"], o["msg"])
-    if o["warn"]:
-        return "the strict re-parse logged warnings: %r" % (o["warn"][:3],)
-    got = o["paras"]
+STAGE = {"build": "building the document", "dump": "dump()",
+         "load": "Copyright(dump().splitlines(True), strict=True)", "getters": "reading the re-parsed paragraphs",
+         "dump2": "the second dump()", "edit": "changing the re-parsed document through its setters / add_*",
+         "dump3": "dump() of the changed document", "load2": "the strict re-parse of the changed document",
+         "getters2": "reading the paragraphs of the changed and re-parsed document",
+         "dump4": "dump() after the second re-parse", "load3": "parsing the first dump a second time",
+         "getters3": "reading the paragraphs of the second parse of the first dump"}
+
+
+def compare_doc(got_hdr, got, hdr, expected, format0, what):
+    """one observed (header, paragraphs) against the expected document; None or a message"""
     if [p["kind"] for p in got] != [p["kind"] for p in expected]:
-        return "paragraph kinds/order after re-parse %r, expected %r" % ([p["kind"] for p in got], [p["kind"] for p in expected])
+        return "%s: paragraph kinds/order %r, expected %r" % (what, [p["kind"] for p in got], [p["kind"] for p in expected])
     for i, (g, e) in enumerate(zip(got, expected)):
         if e["kind"] == "Files":
             if list(g["pats"]) != list(e["pats"]):
-                return "paragraph %d: files %r, built from %r" % (i + 1, g["pats"], e["pats"])
+                return "%s: paragraph %d: files %r, expected %r" % (what, i + 1, g["pats"], e["pats"])
             if g["copy"] != e["copy"]:
-                return "paragraph %d: copyright %r, built from %r" % (i + 1, g["copy"], e["copy"])
+                return "%s: paragraph %d: copyright %r, expected %r" % (what, i + 1, g["copy"], e["copy"])
         if g["syn"] != e["syn"]:
-            return "paragraph %d: license synopsis %r, built from %r" % (i + 1, g["syn"], e["syn"])
+            return "%s: paragraph %d: license synopsis %r, expected %r" % (what, i + 1, g["syn"], e["syn"])
         if g["text"] != e["text"]:
-            return "paragraph %d: license text %r, built from %r" % (i + 1, g["text"], e["text"])
-    h = o["hdr"]
-    if h["format"] != o["format0"]:
-        return "header Format %r after re-parse, was %r" % (h["format"], o["format0"])
+            return "%s: paragraph %d: license text %r, expected %r" % (what, i + 1, g["text"], e["text"])
+    h = got_hdr
+    if h["format"] != format0:
+        return "%s: header Format %r, was %r" % (what, h["format"], format0)
     if h["name"] != hdr.get("name"):
-        return "header Upstream-Name %r after re-parse, built from %r" % (h["name"], hdr.get("name"))
+        return "%s: header Upstream-Name %r, expected %r" % (what, h["name"], hdr.get("name"))
     if list(h["uc"]) != list(hdr.get("uc") or []):
-        return "header Upstream-Contact %r after re-parse, built from %r" % (h["uc"], hdr.get("uc"))
+        return "%s: header Upstream-Contact %r, expected %r" % (what, h["uc"], hdr.get("uc"))
     if (h["lic"] is None) != (hdr.get("lic") is None) or (h["lic"] is not None and list(h["lic"]) != list(hdr["lic"])):
-        return "header License %r after re-parse, built from %r" % (h["lic"], hdr.get("lic"))
+        return "%s: header License %r, expected %r" % (what, h["lic"], hdr.get("lic"))
+    return None
+
+
+def judge_doc(o, hdr, expected, expected2=None):
+    """verdict observables of one execution against the expected document (list of paragraphs in
+    the expected order, same form as ops) and, when the re-parsed document was edited, against the
+    expected edited document; returns None or a message"""
+    done = ["build", "dump", "load", "getters", "dump2", "edit", "dump3", "load2", "getters2", "dump4", "load3",
+            "getters3", "done"]
+    first_ok = not o["exc"] or done.index(o["stage"]) > done.index("dump2")
+    if not first_ok:
+        return "%s raised %s: %s" % (STAGE.get(o["stage"], o["stage"]), o["exc"], o["msg"])
+    if o["warn"]:
+        return "the strict re-parse logged warnings: %r" % (o["warn"][:3],)
+    msg = compare_doc(o["hdr"], o["paras"], hdr, expected, o["format0"], "after the strict re-parse of dump()")
+    if msg:
+        return msg
     if o["dump2"] != o["dump"]:
         return "second dump() differs from the first: %r vs %r" % (o["dump2"][:400], o["dump"][:400])
-    return None
+    if o["exc"]:
+        return "%s raised %s: %s" % (STAGE.get(o["stage"], o["stage"]), o["exc"], o["msg"])
+    if expected2 is not None:
+        msg = compare_doc(o["hdr2"], o["paras2"], hdr, expected2, o["format0"],
+                          "after changing the re-parsed document (%s), dump() and a strict re-parse"
+                          % ", ".join("%s of paragraph %d" % (e["kind"], e["i"] + 1) if e["kind"] != "add"
+                                      else "add %s paragraph" % e["para"]["kind"] for e in o["edits"]))
+        if msg:
+            return msg
+        if o["dump4"] != o["dump3"]:
+            return "dump() of the re-parsed changed document differs from the text it was parsed from: %r vs %r" % (
+                o["dump4"][:400], o["dump3"][:400])
+    return compare_doc(o["hdr3"], o["paras3"], hdr, expected, o["format0"],
+                       "parsing the first dump again after the first parse result was changed")
+
+
+class Live:
+    """the objects of an earlier case, kept alive and looked at again after an unrelated case"""
+
+    def __init__(self, o, hdr, label):
+        self.C, self.c = o["_live"]
+        self.hdr, self.fmt, self.label = hdr, o["format0"], label
+        self.obs = (o["hdr3"], o["paras3"], o["dump"])
+
+    def recheck(self):
+        try:
+            h, ps = observe_doc(self.C, self.c)
+            d = self.c.dump()
+        except Exception as e:
+            return "looking again at the document of an earlier case raised %s: %s" % (exc_name(e), str(e)[:200])
+        if (h, ps) != self.obs[:2]:
+            return "the parsed document of an earlier case changed while another document was processed: %r, was %r" % (
+                ps, self.obs[1])
+        if d != self.obs[2]:
+            return "dump() of the parsed document of an earlier case changed while another document was processed: %r, was %r" % (
+                d[:400], self.obs[2][:400])
+        return None
 
 
 def abs_dump(text, it):
@@ -398,6 +581,11 @@ def check_codec_case(case, conc, diag=None):
             return "format_multiline_lines/parse_multiline_as_lines(%r) raised %s: %s" % (lines, o["exc"], o["msg"]), lines
         if o["out"] != exp_out:
             return "parse_multiline_as_lines(format_multiline_lines(%r)) = %r (encoded %r)" % (lines, o["out"], o["enc"]), lines
+        if o["out2"] != exp_out or o["out3"] != exp_out:
+            return ("a second parse_multiline_as_lines(format_multiline_lines(%r)), made after the caller changed the list "
+                    "returned by the first call, gives %r / %r" % (lines, o["out2"], o["out3"])), lines
+        if not o["kept"]:
+            return "format_multiline_lines changed its argument %r or gave another text the second time" % (lines,), lines
     elif diag is not None:
         if o["exc"] or o["out"] != exp_out:
             diag.append("codec normal form outside the condition: %r -> %r, specification predicts %r" % (
@@ -410,6 +598,7 @@ def check_codec_case(case, conc, diag=None):
 
 
 def doc_concretize(case, conc):
+    """(header, ops, expected document, document before the edit or None, edits or None)"""
     def para(p, k):
         return {"kind": p["k"], "pats": [conc.body(c) for c in p["p"]],
                 "copy": conc.text(p["c"], "c%d" % k) if p["k"] == "Files" else None,
@@ -423,23 +612,51 @@ def doc_concretize(case, conc):
            "lic": [conc.line(h["l"][0]["s"], "hs"), conc.text(h["l"][0]["t"], "ht")] if h["l"] else None}
     ops = [para(p, kof(p)) for p in case["ops"]]
     doc = [para(p, kof(p)) for p in case["doc"]]
-    return hdr, ops, doc
+    if not case.get("edit"):
+        return hdr, ops, doc, None, None
+    pre = [para(p, kof(p)) for p in case["pre"]]
+    e = case["edit"][0]
+    if e["kind"] == "files":
+        ce = {"kind": "files", "i": e["i"] - 1, "pats": [conc.body(c) for c in e["p"]]}
+    elif e["kind"] == "copy":
+        ce = {"kind": "copy", "i": e["i"] - 1, "copy": conc.text(e["c"], "ec")}
+    elif e["kind"] == "lic":
+        # same synopsis (same payload id as the paragraph's), new text
+        ce = {"kind": "lic", "i": e["i"] - 1, "syn": conc.line(e["l"]["s"], "es"), "text": conc.text(e["l"]["t"], "et")}
+    else:
+        ce = {"kind": "add", "para": para(e["a"], 9), "at": e["at"]}
+    return hdr, ops, doc, pre, [ce]
 
 
 def check_doc_case(case, conc, form="lines", dumpform="str", diag=None):
-    hdr, ops, doc = doc_concretize(case, conc)
-    o = exec_doc(hdr, ops, "api", form, dumpform)
-    msg = judge_doc(o, hdr, doc)
-    if diag is not None and o["dump"] is not None and not o["exc"]:
+    """returns (message or None, observation)"""
+    hdr, ops, doc, pre, edits = doc_concretize(case, conc)
+    first = doc if pre is None else pre
+
+    def choose(order):
+        # TLC's edit refers to TLC's paragraph order
+        return edits if edits is not None and [ops[i] for i in order] == first else None
+    o = exec_doc(hdr, ops, "api", form, dumpform, choose)
+    expected2 = None
+    if edits is not None and o["edits"] is not None and o["edits"] != SCRIBBLE:
+        expected2 = doc
+        if o["edits"][0]["kind"] == "add" and o["edits"][0]["at"] != edits[0]["at"]:
+            expected2 = edited_doc(pre, o["edits"])
+            if diag is not None:
+                diag.append("add_*_paragraph on the re-parsed document put the paragraph at %d, the specification at %d"
+                            % (o["edits"][0]["at"], edits[0]["at"]))
+    msg = judge_doc(o, hdr, first, expected2)
+    if diag is not None and o["dump"] is not None and o["order"] is not None:
         # diagnostic: insertion order of add_* and the layout of dump() as the specification has them
-        if o["order"] is not None and [ops[i] for i in o["order"]] != doc:
+        if [ops[i] for i in o["order"]] != first:
             diag.append("order after add_*_paragraph calls %r differs from the specification's" % (o["order"],))
-        it = Interner(o["format0"])
-        got = [(d["f"], d["x"]["ind"], d["x"]["b"]) for d in abs_dump(o["dump"], it)]
-        exp = [(d["f"], d["x"][0] // 10, ("none", "dot", "txt")[d["x"][0] % 10]) for d in case["dump"]]
-        if got != exp:
-            diag.append("layout of dump() %r differs from the specification's %r" % (got[:12], exp[:12]))
-    return msg, (hdr, ops, doc)
+        elif pre is None:
+            it = Interner(o["format0"])
+            got = [(d["f"], d["x"]["ind"], d["x"]["b"]) for d in abs_dump(o["dump"], it)]
+            exp = [(d["f"], d["x"][0] // 10, ("none", "dot", "txt")[d["x"][0] % 10]) for d in case["dump"]]
+            if got != exp:
+                diag.append("layout of dump() %r differs from the specification's %r" % (got[:12], exp[:12]))
+    return msg, o
 
 
 def _worker(args):
@@ -453,6 +670,7 @@ def _worker(args):
     viol, drift = [], []
     stats = {}
     n = 0
+    prev = None          # (Live objects, replayable description) of the previous document case
     for body in bodies:
         case = json.loads(body)
         crc = zlib.crc32(body.encode())
@@ -470,11 +688,21 @@ def _worker(args):
             else:
                 form = "lines" if k == 0 else rng.choice(["lines", "lines", "file"])
                 dumpform = "str" if k == 0 else rng.choice(["str", "str", "file"])
-                msg, _ = check_doc_case(case, conc, form, dumpform, diag)
+                msg, o = check_doc_case(case, conc, form, dumpform, diag)
+                me = {"kind": "doc", "case": case, "conc": conc.c, "form": form, "dumpform": dumpform}
                 if msg:
-                    viol.append(({"kind": "doc", "case": case, "conc": conc.c, "form": form, "dumpform": dumpform}, msg))
+                    viol.append((dict(me, before=prev[1] if prev else None), msg))
+                if prev is not None:
+                    # the objects of the previous case must not have changed
+                    msg2 = prev[0].recheck()
+                    if msg2:
+                        viol.append(({"kind": "doc-pair", "case": case, "first": prev[1], "second": me}, msg2))
+                prev = (Live(o, None, ""), me) if o["_live"] is not None else None
                 for p in case["ops"]:
                     stats["add_" + p["k"]] = stats.get("add_" + p["k"], 0) + 1
+                if case.get("edit"):
+                    ek = "edit_" + case["edit"][0]["kind"]
+                    stats[ek] = stats.get(ek, 0) + 1
             if diag:
                 drift += diag
             if len(viol) >= 5:
@@ -529,9 +757,10 @@ def replay_cases(ctx, kind, raw_path, nconc, mp_pool, procs):
         lines = codec_concretize(mid, conc)
         ctx.sample("codec case %s: %r -> %r" % (",".join(mid["l"]), lines, exec_codec(lines)["out"]))
     else:
-        hdr, ops, doc = doc_concretize(mid, conc)
-        ctx.sample("doc case hdr=%s ops=%s: %s" % (mid["hk"], [p["k"] for p in mid["ops"]],
-                                                    json.dumps(exec_doc(hdr, ops)["dump"], ensure_ascii=False)[:600]))
+        hdr, ops = doc_concretize(mid, conc)[:2]
+        ctx.sample("doc case hdr=%s ops=%s edit=%s: %s" % (mid["hk"], [p["k"] for p in mid["ops"]],
+                                                            [e["kind"] for e in mid["edit"]],
+                                                            json.dumps(exec_doc(hdr, ops)["dump"], ensure_ascii=False)[:600]))
     return ncase
 
 
@@ -655,37 +884,107 @@ def abs_hdr(h, it):
 FAILED_HDR = {"name": [], "uc": [], "lic": []}
 
 
-def record_doc(hdr, ops, start, form, dumpform):
+NO_LIC = {"syn": {"ind": 0, "b": "none", "id": []}, "text": [{"ind": 0, "b": "none", "id": []}]}
+NO_PARA = {"kind": "none", "pats": [], "copy": [], "lic": NO_LIC}
+
+
+def random_edit_requests(rng):
+    """what to change in the re-parsed document: setter edits first, add_* calls last; the paragraph a
+    setter edit applies to is chosen (by `r`) among the eligible paragraphs once the order is known"""
+    reqs = []
+    for _ in range(rng.choice([0, 1, 1, 2, 3])):
+        k = rng.choice(["files", "copy", "lic", "lic"])
+        if k == "files":
+            reqs.append({"kind": "files", "r": rng.random(), "pats": [rng.choice(PAT_POOL) for _ in range(rng.choice([1, 2, 3]))]})
+        elif k == "copy":
+            reqs.append({"kind": "copy", "r": rng.random(), "copy": random_copy(rng)})
+        else:   # mostly: same synopsis, another text
+            reqs.append({"kind": "lic", "r": rng.random(), "keep_syn": rng.random() < 0.7,
+                         "syn": rng.choice(SYN_POOL), "text": random_text(rng, 5)})
+    for _ in range(rng.choice([0, 0, 1, 1, 2])):
+        if rng.random() < 0.5:
+            para = {"kind": "Files", "pats": [rng.choice(PAT_POOL)], "copy": random_copy(rng),
+                    "syn": rng.choice(SYN_POOL), "text": random_text(rng, 4)}
+        else:
+            para = {"kind": "License", "pats": [], "copy": None, "syn": rng.choice(SYN_POOL), "text": random_text(rng, 4)}
+        reqs.append({"kind": "add", "para": para})
+    return reqs
+
+
+def resolve_edits(reqs, ops, order):
+    """edit requests -> edits on the document whose paragraphs are ops in `order`"""
+    cur = [ops[j] for j in order]
+    syn = [p["syn"] for p in cur]
+    out = []
+    for q in reqs:
+        if q["kind"] == "add":
+            out.append({"kind": "add", "para": q["para"]})
+            continue
+        elig = [i for i, p in enumerate(cur) if q["kind"] == "lic" or p["kind"] == "Files"]
+        if not elig:
+            continue
+        i = elig[int(q["r"] * len(elig)) % len(elig)]
+        if q["kind"] == "files":
+            out.append({"kind": "files", "i": i, "pats": list(q["pats"])})
+        elif q["kind"] == "copy":
+            out.append({"kind": "copy", "i": i, "copy": q["copy"]})
+        else:
+            if not q["keep_syn"]:
+                syn[i] = q["syn"]
+            out.append({"kind": "lic", "i": i, "syn": syn[i], "text": q["text"]})
+    return out
+
+
+def abs_edit(e, it):
+    if e["kind"] == "add":
+        return {"kind": "add", "i": 0, "at": e["at"], "pats": [], "copy": [], "lic": NO_LIC, "para": abs_para(e["para"], it)}
+    return {"kind": e["kind"], "i": e["i"] + 1, "at": 0,
+            "pats": [abs_pat(x, it) for x in e["pats"]] if e["kind"] == "files" else [],
+            "copy": abs_str(e["copy"], it) if e["kind"] == "copy" else [],
+            "lic": abs_lic(e["syn"], e["text"], it) if e["kind"] == "lic" else NO_LIC, "para": NO_PARA}
+
+
+def abs_load(o, hkey, pkey, it, ok):
+    if not ok:
+        return {"err": "%s in %s" % (o["exc"] or "error", o["stage"]), "hdr": FAILED_HDR, "paras": []}
+    h = o[hkey]
+    bad = [p for p in o[pkey] if p["kind"] not in ("Files", "License")]
+    if bad or not isinstance(h["format"], str) or h["format"] != o["format0"]:
+        return {"err": "bad-paragraph-or-format", "hdr": FAILED_HDR, "paras": []}
+    return {"err": "none", "hdr": abs_hdr({"name": h["name"], "uc": h["uc"], "lic": h["lic"]}, it),
+            "paras": [abs_para(p, it) for p in o[pkey]]}
+
+
+def record_doc(hdr, ops, start, form, dumpform, reqs=()):
     """execute and abstract one document execution; returns (trace, observation)"""
     from debian import copyright as C
-    o = exec_doc(hdr, ops, start, form, dumpform)
+    o = exec_doc(hdr, ops, start, form, dumpform, lambda order: resolve_edits(reqs, ops, order))
     it = Interner(o["format0"] if isinstance(o["format0"], str) else getattr(C, "_CURRENT_FORMAT", "format"))
     tr = {"kind": "doc", "start": start, "hdr": abs_hdr(hdr, it), "ops": [abs_para(p, it) for p in ops],
           "order": [i + 1 for i in (o["order"] if o["order"] is not None else range(len(ops)))],
           "dump": abs_dump(o["dump"], it) if isinstance(o["dump"], str) else [],
           "warn": len(o["warn"]), "same": bool(o["dump2"] is not None and o["dump2"] == o["dump"])}
-    if o["exc"] and o["stage"] in ("build", "dump"):
-        tr["load"] = {"err": "%s in %s" % (o["exc"], o["stage"]), "hdr": FAILED_HDR, "paras": []}
-    elif o["exc"] and o["stage"] in ("load", "getters"):
+    if o["exc"] and o["stage"] in ("load", "getters"):
         tr["load"] = {"err": o["exc"], "hdr": FAILED_HDR, "paras": []}
     else:
-        h = o["hdr"]
-        bad = [p for p in o["paras"] if p["kind"] not in ("Files", "License")]
-        if bad or not isinstance(h["format"], str) or h["format"] != o["format0"]:
-            tr["load"] = {"err": "bad-paragraph-or-format", "hdr": FAILED_HDR, "paras": []}
-        else:
-            tr["load"] = {"err": "none",
-                          "hdr": abs_hdr({"name": h["name"], "uc": h["uc"], "lic": h["lic"]}, it),
-                          "paras": [abs_para(p, it) for p in o["paras"]]}
+        tr["load"] = abs_load(o, "hdr", "paras", it, o["paras"] is not None)
+    done_edit = o["edits"] is not None and o["edits"] != SCRIBBLE and all(e["kind"] != "add" or "at" in e for e in o["edits"])
+    tr["edits"] = [abs_edit(e, it) for e in o["edits"]] if done_edit else []
+    tr["load2"] = abs_load(o, "hdr2", "paras2", it, o["paras2"] is not None)
+    tr["same2"] = bool(o["dump4"] is not None and o["dump4"] == o["dump3"])
+    tr["load3"] = abs_load(o, "hdr3", "paras3", it, o["paras3"] is not None)
     return tr, o
 
 
 def record_codec(lines):
     o = exec_codec(lines)
     it = Interner("format")
+
+    def al(x):
+        return [abs_line(y, it) for y in x] if (x is not None and not o["exc"]) else []
     tr = {"kind": "codec", "ls": [abs_line(x, it) for x in lines],
           "enc": abs_str(o["enc"], it) if isinstance(o["enc"], str) else [],
-          "out": [abs_line(x, it) for x in o["out"]] if (o["out"] is not None and not o["exc"]) else [],
+          "out": al(o["out"]), "out2": al(o["out2"]), "out3": al(o["out3"]), "kept": bool(o["kept"]),
           "exc": o["exc"]}
     return tr, o
 
@@ -705,7 +1004,8 @@ def control_traces(traces):
     """corrupted copies of real traces: TLC must reject every one of them"""
     import copy
     out = []
-    want = {"swap", "same", "indent", "err", "codec-indent", "codec-drop", "warn"}
+    want = {"swap", "same", "indent", "err", "codec-indent", "codec-drop", "warn", "stale-edit", "leak-again",
+            "codec-aliased"}
     for t in traces:
         if not want:
             break
@@ -731,6 +1031,16 @@ def control_traces(traces):
                 c["load"] = {"err": "MachineReadableFormatError", "hdr": FAILED_HDR, "paras": []}
                 out.append(c)
                 want.discard("err")
+            if "stale-edit" in want and t["edits"] and t["load2"]["err"] == "none" and t["load2"] != t["load"]:
+                c = copy.deepcopy(t)            # the second round trip shows the document before the edit
+                c["load2"] = copy.deepcopy(t["load"])
+                out.append(c)
+                want.discard("stale-edit")
+            if "leak-again" in want and t["edits"] and t["load2"]["err"] == "none" and t["load2"] != t["load"]:
+                c = copy.deepcopy(t)            # the second parse of the first dump shows the edit
+                c["load3"] = copy.deepcopy(t["load2"])
+                out.append(c)
+                want.discard("leak-again")
             if "indent" in want:
                 for i, p in enumerate(ps):
                     hit = [j for j, x in enumerate(p["lic"]["text"]) if x["ind"] > 0]
@@ -747,6 +1057,11 @@ def control_traces(traces):
                 c["out"][hit[0]]["ind"] -= 1
                 out.append(c)
                 want.discard("codec-indent")
+            if "codec-aliased" in want and t["out"]:
+                c = copy.deepcopy(t)            # the second call returns the list the caller scribbled on
+                c["out2"] = c["out2"] + [{"ind": 0, "b": "txt", "id": [999]}]
+                out.append(c)
+                want.discard("codec-aliased")
             hit = [j for j, x in enumerate(t["out"]) if x["b"] == "none" and j > 0]
             if "codec-drop" in want and hit:
                 c = copy.deepcopy(t)
@@ -782,12 +1097,17 @@ def validate(ctx, traces, with_controls=True):
 
 DOC_STEP = {0: "order after the add_* calls (diagnostic)", 1: "layout of dump() (diagnostic)", 2: "reader (diagnostic)",
             3: "RoundTrip: the strict re-parse does not give back the document that was built",
-            4: "Stable: the second dump() differs from the first"}
+            4: "Stable: the second dump() differs from the first",
+            5: "second round trip: after changing the re-parsed document, dump() + strict re-parse do not describe the changed document",
+            6: "parsing the first dump again (after the first parse result was changed) does not give the document that was built"}
 
 
 def explain_doc(hdr, ops, o, at):
     exp = [ops[i] for i in o["order"]] if o["order"] is not None else ops
-    msg = judge_doc(o, hdr, exp)
+    exp2 = None
+    if o["edits"] is not None and o["edits"] != SCRIBBLE and all(e["kind"] != "add" or "at" in e for e in o["edits"]):
+        exp2 = edited_doc(exp, o["edits"])
+    msg = judge_doc(o, hdr, exp, exp2)
     return "%s; %s" % (DOC_STEP.get(at, "step %d" % at), msg or "(the concrete comparison sees no difference)")
 
 
@@ -796,14 +1116,28 @@ def run_traces(ctx, quick):
     ndoc, ncodec = (500, 1200) if quick else (6000, 20000)
     traces, metas = [], []
     kinds = {"Files": 0, "License": 0, "api": 0, "parsed": 0}
-    for _ in range(ndoc):
+    nedits = {}
+    prev = None
+    leaks = []
+    for n in range(ndoc):
         hdr, ops, start, form, dumpform = random_doc(rng)
-        tr, o = record_doc(hdr, ops, start, form, dumpform)
+        reqs = random_edit_requests(rng)
+        tr, o = record_doc(hdr, ops, start, form, dumpform, reqs)
         traces.append(tr)
-        metas.append(("doc", hdr, ops, start, form, dumpform, o))
+        me = {"kind": "trace-doc", "hdr": hdr, "ops": ops, "start": start, "form": form, "dumpform": dumpform, "reqs": reqs}
+        metas.append(("doc", hdr, ops, start, form, dumpform, o, dict(me, before=prev[1] if prev else None)))
+        if prev is not None:
+            msg = prev[0].recheck()         # the objects of the previous document must not have changed
+            if msg and len(leaks) < 2:
+                leaks.append(({"kind": "trace-pair", "first": prev[1], "second": me}, msg))
+        prev = (Live(o, hdr, ""), me) if o["_live"] is not None else None
+        o["_live"] = None
         kinds[start] += 1
         for p in ops:
             kinds[p["kind"]] += 1
+        for e in tr["edits"]:
+            nedits[e["kind"]] = nedits.get(e["kind"], 0) + 1
+    prev = None
     for i in range(ncodec):
         dom = i % 5 != 0
         lines = random_lines(rng, dom)
@@ -818,14 +1152,17 @@ def run_traces(ctx, quick):
     ctx.evaluations += len(traces)
     for i, t in enumerate(traces):
         ctx.distinct.add("trace:%d" % zlib.crc32(json.dumps(t, sort_keys=True).encode()))
-    ctx.extra["traces_recorded"] = {"doc": ndoc, "codec": ncodec, "paragraphs": kinds["Files"] + kinds["License"]}
+    ctx.extra["traces_recorded"] = {"doc": ndoc, "codec": ncodec, "paragraphs": kinds["Files"] + kinds["License"],
+                                    "edits_of_reparsed_documents": sum(nedits.values())}
     ctx.extra.setdefault("per_action_counts", {}).update(
         {"trace_add_Files": kinds["Files"], "trace_add_License": kinds["License"],
          "trace_start_api": kinds["api"], "trace_start_parsed": kinds["parsed"]})
+    ctx.extra["per_action_counts"].update({"trace_edit_" + k: v for k, v in nedits.items()})
     ctx.extra["traces_rejected"] = len(rejected)
     ctx.extra["control_traces"] = ncontrols
     m = metas[3]
     ctx.sample("recorded document trace: %s" % json.dumps({"start": m[3], "ops": [p["kind"] for p in m[2]],
+                                                           "edits": [e["kind"] for e in (m[6]["edits"] or [])],
                                                            "dump": (m[6]["dump"] or "")[:300]}, ensure_ascii=False))
     m = metas[ndoc + 7]
     ctx.sample("recorded codec trace: %r -> %r -> %r" % (m[1], m[2]["enc"], m[2]["out"]))
@@ -845,11 +1182,14 @@ def run_traces(ctx, quick):
         at = info.get(i, 0)
         if m[0] == "codec":
             ctx.violation({"kind": "trace-codec", "lines": m[1]},
-                          "parse_multiline_as_lines(format_multiline_lines(%r)) = %r%s, not explained by the specification (CodecLaw: the original lines)"
-                          % (m[1], m[2]["out"], (" raised " + m[2]["exc"]) if m[2]["exc"] else ""))
+                          "parse_multiline_as_lines(format_multiline_lines(%r)) = %r, second call %r / %r%s, not explained by the specification (CodecLaw: the original lines, every time)"
+                          % (m[1], m[2]["out"], m[2]["out2"], m[2]["out3"], (" raised " + m[2]["exc"]) if m[2]["exc"] else ""))
         else:
-            ctx.violation({"kind": "trace-doc", "hdr": m[1], "ops": m[2], "start": m[3], "form": m[4], "dumpform": m[5]},
-                          "recorded execution not explained by the specification at step %d: %s" % (at + 1, explain_doc(m[1], m[2], m[6], at)))
+            ctx.violation(m[7], "recorded execution not explained by the specification at step %d: %s" % (at + 1, explain_doc(m[1], m[2], m[6], at)))
+    if not [i for i in filed if metas[i - 1][0] == "doc"]:
+        for case, msg in leaks[:1]:
+            ctx.violation(case, msg)
+    ctx.extra["earlier_documents_rechecked"] = ndoc - 1
 
 
 def unspecified_zone(ctx):
@@ -951,24 +1291,50 @@ def _run(ctx, quick, cfg_codec, cfg_doc, negs, mp_pool, procs):
         ctx.extra["spec_negative_controls"] = [f.result() for f in f_negs]
 
 
+def _rerun_trace_doc(case):
+    return record_doc(case["hdr"], case["ops"], case["start"], case.get("form", "lines"), case.get("dumpform", "str"),
+                      case.get("reqs", ()))
+
+
+def _rerun_doc_case(case):
+    return check_doc_case(case["case"], Conc(random.Random(0), choices=case["conc"]),
+                          case.get("form", "lines"), case.get("dumpform", "str"))
+
+
 def replay(ctx, case):
     k = case["kind"]
     if k == "codec":
         msg, _ = check_codec_case(case["case"], Conc(random.Random(0), choices=case["conc"]))
         return msg
     if k == "doc":
-        msg, _ = check_doc_case(case["case"], Conc(random.Random(0), choices=case["conc"]),
-                                case.get("form", "lines"), case.get("dumpform", "str"))
-        return msg
+        if case.get("before"):
+            _rerun_doc_case(case["before"])       # the case that was executed just before, in the same process
+        return _rerun_doc_case(case)[0]
+    if k == "doc-pair":
+        msg, o = _rerun_doc_case(case["first"])
+        if msg or o["_live"] is None:
+            return msg or "the first case of the pair no longer runs to its end"
+        live = Live(o, None, "")
+        _rerun_doc_case(case["second"])
+        return live.recheck()
+    if k == "trace-pair":
+        tr, o = _rerun_trace_doc(case["first"])
+        if o["_live"] is None:
+            return "the first document of the pair no longer runs to its end (%s %s)" % (o["stage"], o["exc"])
+        live = Live(o, None, "")
+        _rerun_trace_doc(case["second"])
+        return live.recheck()
     if k == "trace-codec":
         tr, o = record_codec(case["lines"])
         rejected, _, _, _ = validate(ctx, [tr], with_controls=False)
         if rejected:
-            return "parse_multiline_as_lines(format_multiline_lines(%r)) = %r%s: still not explained by the specification" % (
-                case["lines"], o["out"], (" raised " + o["exc"]) if o["exc"] else "")
+            return "parse_multiline_as_lines(format_multiline_lines(%r)) = %r, second call %r / %r%s: still not explained by the specification" % (
+                case["lines"], o["out"], o["out2"], o["out3"], (" raised " + o["exc"]) if o["exc"] else "")
         return None
     if k == "trace-doc":
-        tr, o = record_doc(case["hdr"], case["ops"], case["start"], case.get("form", "lines"), case.get("dumpform", "str"))
+        if case.get("before"):
+            _rerun_trace_doc(case["before"])
+        tr, o = _rerun_trace_doc(case)
         rejected, info, _, _ = validate(ctx, [tr], with_controls=False)
         if rejected:
             return "execution still not explained by the specification: " + explain_doc(case["hdr"], case["ops"], o, info.get(1, 0))
